@@ -1,13 +1,13 @@
 #!/bin/bash
 # usage: tools/seed_take.sh <name> <worktree-id> <pkgdir> <run-regexp> <tier> <ID> [<ID> ...]
-# Takes /tmp/seed/out/<worktree-id>.patch.diff and .demo_test.go, confirms them in the scratch
+# Takes /tmp/seed/out/<name>.patch.diff and .demo_test.go, confirms them in the scratch
 # worktree /tmp/seed/<worktree-id> (seed_verify.sh), stores them as /verif/seeded/<name>/ and
 # runs the given checks against the change (seed_run.sh).
 name=$1; wid=$2; pkgdir=$3; run=$4; tier=$5; shift 5
 out=/tmp/seed/out
-/verif/tools/seed_verify.sh $wid /tmp/seed/$wid $out/$wid.patch.diff $out/$wid.demo_test.go "$pkgdir" "$run" || exit 1
+/verif/tools/seed_verify.sh $name /tmp/seed/$wid $out/$name.patch.diff $out/$name.demo_test.go "$pkgdir" "$run" || exit 1
 mkdir -p /verif/seeded/$name
-cp $out/$wid.patch.diff /verif/seeded/$name/patch.diff
-cp $out/$wid.demo_test.go /verif/seeded/$name/demo_test.go
+cp $out/$name.patch.diff /verif/seeded/$name/patch.diff
+cp $out/$name.demo_test.go /verif/seeded/$name/demo_test.go
 /verif/tools/seed_run.sh $name $tier "$@"
 for id in "$@"; do rm -rf /verif/replay/$id/found; done
